@@ -66,9 +66,27 @@ package tan
 // written to the log file but not fsynced yet
 //@ ghost var gUnsynced bool
 
-//@ func (d *db) write [C04]
-//@ trusted body not verified here (encodes the update, appends the record, updates the index); reports whether an fsync is needed
+// From the property: the term, the vote and the entries an update carries must be durable
+// before it is acknowledged; write reports that an fsync is needed whenever the update carries
+// entries or a snapshot, or its term or vote differ from the last saved ones
+// (uf savedTerm / savedVote: the hard state last recorded for the replica when write is entered).
+//@ func (d *db) write [C04 C10]
+//@ noframe
+//@ nobounds
+//@ modifies gUnsynced, gWriteFailed, gDataSynced
 //@ ghostset gUnsynced := old(gUnsynced) || (result1 == nil && result0)
+//@ ensures result1 == nil && (len(u.EntriesToSave) > 0 || u.Snapshot.Index != 0 || u.State.Term != uf("savedTerm", u.ShardID, u.ReplicaID) || u.State.Vote != uf("savedVote", u.ShardID, u.ReplicaID)) ==> result0
+//@ func (s *nodeStates) getState [C04]
+//@ trusted looks up the hard state last recorded for the replica
+//@ ensures result.Term == uf("savedTerm", shardID, replicaID) && result.Vote == uf("savedVote", shardID, replicaID)
+//@ func (s *nodeStates) setState [C04]
+//@ trusted records the hard state in memory
+//@ func isCompactionUpdate [C04]
+//@ trusted classifies the update
+//@ func (d *db) makeRoomForWrite [C04]
+//@ trusted log file rotation (switches to a new log file when the current one is full)
+//@ func (d *db) updateIndex [C04]
+//@ trusted in-memory index update
 
 //@ func (d *db) sync [C04]
 //@ trusted wraps the log file's Sync
